@@ -195,10 +195,16 @@ func NewStaticUpstreams(c casketfile.Dispenser, host string) ([]Upstream, error)
 				// time.NewTicker panics (in the worker's goroutine) otherwise
 				return upstreams, c.Err("health_check_interval must be a positive duration")
 			}
+			// the health checker authenticates the backend (and itself) the way
+			// the proxied requests of this upstream do
+			healthTLS := &tls.Config{InsecureSkipVerify: upstream.insecureSkipVerify, RootCAs: upstream.CaCertPool}
+			if upstream.ClientKeyPair != nil {
+				healthTLS.Certificates = []tls.Certificate{*upstream.ClientKeyPair}
+			}
 			upstream.HealthCheck.Client = http.Client{
 				Timeout: upstream.HealthCheck.Timeout,
 				Transport: &http.Transport{
-					TLSClientConfig: &tls.Config{InsecureSkipVerify: upstream.insecureSkipVerify},
+					TLSClientConfig: healthTLS,
 				},
 			}
 
